@@ -122,3 +122,40 @@ theorem prefix_le_total (l : List (ℝ × ℝ)) (hw : ∀ p ∈ l, 0 ≤ p.2) (k
         linarith
     _ = (l.map Prod.snd).sum := by
         rw [← List.sum_append, ← List.map_append, ← hsplit]
+
+/-- sum_ge_member (pyvc.sums.lemma_sum_ge_member): a sum of non-negative terms is at least each of its terms. -/
+theorem sum_ge_member (s : Finset U) (f : U → ℝ) (h : ∀ u ∈ s, 0 ≤ f u) (r : U) (hr : r ∈ s) :
+    f r ≤ ∑ u ∈ s, f u :=
+  Finset.single_le_sum h hr
+
+/-- sum_nonzero_witness (pyvc.sums.sum_nonzero_witness): a sum that is not 0 has a term that is not 0. -/
+theorem sum_nonzero_witness (s : Finset U) (f : U → ℝ) (h : ∑ u ∈ s, f u ≠ 0) :
+    ∃ r ∈ s, f r ≠ 0 :=
+  Finset.exists_ne_zero_of_sum_ne_zero h
+
+/-- count_mono (pyvc.frames.lemma_count_mono): a subset has no more elements. -/
+theorem count_mono (s : Finset U) (A B : U → Prop) [DecidablePred A] [DecidablePred B]
+    (h : ∀ u ∈ s, A u → B u) : (s.filter A).card ≤ (s.filter B).card := by
+  apply Finset.card_le_card
+  intro u hu
+  rw [Finset.mem_filter] at hu ⊢
+  exact ⟨hu.1, h u hu.1 hu.2⟩
+
+/-- count_witness (pyvc.frames.count_witness): a non-empty filter has an element, and an element makes it non-empty. -/
+theorem count_witness (s : Finset U) (A : U → Prop) [DecidablePred A] :
+    (s.filter A).card ≠ 0 ↔ ∃ r ∈ s, A r := by
+  rw [Finset.card_ne_zero]
+  constructor
+  · rintro ⟨r, hr⟩
+    rw [Finset.mem_filter] at hr
+    exact ⟨r, hr.1, hr.2⟩
+  · rintro ⟨r, hr, ha⟩
+    exact ⟨r, Finset.mem_filter.mpr ⟨hr, ha⟩⟩
+
+/-- rounding keeps whole floors (contracts/C15.py lemma.rounding_keeps_whole_floors): a whole number within 1/2 of x
+    is at least every whole number below x. -/
+theorem rounding_keeps_whole_floors (x : ℝ) (r k : ℤ) (hk : (k : ℝ) ≤ x) (hr : x - 1 / 2 ≤ (r : ℝ)) : k ≤ r := by
+  have h : (k : ℝ) - 1 / 2 ≤ (r : ℝ) := by linarith
+  have h2 : (k : ℝ) < (r : ℝ) + 1 := by linarith
+  have h3 : k < r + 1 := by exact_mod_cast h2
+  omega
